@@ -38,7 +38,7 @@ Definition view := (Z * bool * status * Z)%type.
 Definition view_of (r : row) : view := (r_errors r, r_active r, r_lstatus r, r_lts r).
 
 Inductive errcode := ErrRefreshWebhook | ErrWebhookNotFound.
-Inductive resp := RespNone | RespOK | RespRow (v : view) | RespErr (e : errcode).
+Inductive resp := RespNone | RespOK | RespRow (v : view) | RespErr (e : errcode) | RespRejected.
 
 (* one POST as seen by the target: url, and the headers other than Content-Type *)
 Definition post := (Z * list (hname * tokv))%type.
@@ -47,7 +47,8 @@ Inductive op :=
 | OpRegister (u : Z) (k : akind) (h t : Z)
 | OpDelete (u : Z)
 | OpNotify (f : Z -> outcome)     (* outcome of the call to each url for this event *)
-| OpRestart.
+| OpRestart
+| OpBad.                          (* a request the endpoint rejects before the service is reached: no url, unparsable body *)
 
 (* ---------- which repairs are applied ---------- *)
 Record fixes := mkFixes {
@@ -158,6 +159,7 @@ Definition step (fx : fixes) (mt : Z) (prod : bool) (now : Z) (o : op) (tb : tab
   | OpDelete u => let '(tb', r) := delete u tb in (tb', r, [])
   | OpNotify f => let '(tb', ps) := notify fx mt prod f now tb in (tb', RespNone, ps)
   | OpRestart => (restart tb, RespNone, [])
+  | OpBad => (tb, RespRejected, [])
   end.
 
 (* the observable of one step: response, POSTs, GET of every url of the universe *)
@@ -314,7 +316,8 @@ Definition errcode_eqb (a b : errcode) : bool :=
 Definition resp_eqb (a b : resp) : bool :=
   match a, b with
   | RespNone, RespNone => true | RespOK, RespOK => true
-  | RespRow x, RespRow y => view_eqb x y | RespErr x, RespErr y => errcode_eqb x y | _, _ => false end.
+  | RespRow x, RespRow y => view_eqb x y | RespErr x, RespErr y => errcode_eqb x y
+  | RespRejected, RespRejected => true | _, _ => false end.
 
 (* re-synchronise the reference table with the observed views *)
 Definition resync_row (obs : list (Z * option view)) (r : row) : list row :=
